@@ -1,12 +1,69 @@
-(* C07B/Props.v — stand-alone wrapper so that `bin/check C07B` can run part B of C07 on its own.
-   The property-level theorems live in C07/FileProps.v; they are restated here and proved by `exact`. *)
-From Coq Require Import List ZArith NArith.
-From BLB Require Import C07.FileFS C07.FileModel.
+(* C07B/Props.v - stand-alone wrapper so that `bin/check C07B` can run part B of C07 on its own.
+   Same statements as C07/FileProps.v (kept textually identical below the imports). *)
+From Coq Require Import List ZArith NArith Bool.
+From BLB Require Import C07.FileFS C07.FileModel C07.FileProofsState C07.FileProofsSnapA C07.FileProofsSnapB
+     C07.FileProofsSnapC C07.FileProofsRet.
 Import ListNotations.
 
-(* [FULL] every state reachable under the crash quantifier of the property is a power loss state of some prefix of the trace *)
+(* [FULL] every state reachable under the crash quantifier of the property (all mutations before the crash point applied, the write in flight cut anywhere) is a power loss state (crash_cache) of some prefix of the trace, so theorems over crash_cache are the strong form *)
 Theorem crash_prefix_sub_cache :
   forall tr s0 c, dir_consistent s0 -> crash_prefix tr s0 c ->
     exists k, k <= length tr /\ crash_cache (run (firstn k tr) s0) c.
 Proof. exact crash_prefix_sub_cache_lemma. Qed.
 Print Assumptions crash_prefix_sub_cache.
+
+(* [FULL] state file atomicity over crash_cache. For every quiescent start directory s0 holding state st0 (a left over raft_state.tmp with any content allowed), every sequence ops1 of completed setters with any encoded lengths, every next setter o, every crash point r inside its stateToFile, every power loss state c (any subset of pending directory operations, dirty files with arbitrary content): NewFSState succeeds and returns the state before o or the state after o, never anything else, and once stateToFile has returned it returns the new state (an acknowledged term or vote is never forgotten) *)
+Theorem state_file_atomic :
+  forall s0 st0 ops1 o L r c,
+    stable s0 (Some st0) ->
+    let st_old := sfold st0 ops1 in
+    let st_new := sop_apply o st_old in
+    r <= length (state_to_file st_new L) ->
+    crash_cache (run (strace st0 ops1 ++ firstn r (state_to_file st_new L)) s0) c ->
+    (open_state c = OpenOk st_old \/ open_state c = OpenOk st_new) /\
+    (r = length (state_to_file st_new L) -> open_state c = OpenOk st_new).
+Proof. exact state_file_atomic_lemma. Qed.
+Print Assumptions state_file_atomic.
+
+(* [FULL] the very first start. From a directory without state file, for every GUID g, every crash point r of the initial stateToFile and every power loss state: NewFSState either starts afresh again or finds exactly the initial state, and finds it once the write has returned *)
+Theorem state_file_first_start :
+  forall s0 g L r c,
+    stable s0 None ->
+    r <= length (state_to_file (fresh_state g) L) ->
+    crash_cache (run (firstn r (state_to_file (fresh_state g) L)) s0) c ->
+    (open_state c = OpenFresh \/ open_state c = OpenOk (fresh_state g)) /\
+    (r = length (state_to_file (fresh_state g) L) -> open_state c = OpenOk (fresh_state g)).
+Proof. exact state_file_first_start_lemma. Qed.
+Print Assumptions state_file_first_start.
+
+(* [FULL] snapshot visibility over crash_cache. For every sequence ops1 of completed manager operations from the empty directory (Begin, Write, Commit, Abort, restart, with any oracle orders and lengths), every next operation o, every crash point r inside o and every power loss state c. First, whatever carries a valid snapshot name holds exactly the complete content of a snapshot whose Commit was started. Second, NewFSSnapshotMgr never dies. Third, it selects the newest name present, that snapshot is complete, and it is at least as new as every acknowledged snapshot. After o has returned the same holds with the snapshot committed by o counted as acknowledged *)
+Theorem snapshot_visible_iff_complete :
+  forall ops1 o r c,
+    let g := grun g0 ops1 in
+    let C := g_C (gstep g o) in
+    crash_cache (run (firstn r (op_trace (g_p g) o)) (ps_fs (g_p g))) c ->
+    (forall t i x, In (NSnap t i, x) (c_dir c) ->
+       exists sid nch, In (t, i, content_of t i sid nch) C /\ c_data c x = content_of t i sid nch) /\
+    (forall A, A = g_A g \/ (length (op_trace (g_p g) o) <= r /\ A = g_A (gstep g o)) ->
+     match open_mgr (c_dir c) (c_data c) with
+     | MFatal => False
+     | MNone => (forall m x, is_fin m = true -> ~ In (m, x) (c_dir c)) /\ A = []
+     | MSome t i sid nch =>
+         (exists x sid0 nch0, lookup (NSnap t i) (c_dir c) = Some x /\ c_data c x = content_of t i sid0 nch0 /\
+                              In (t, i, content_of t i sid0 nch0) C /\ (sid, nch) = visible_of sid0 nch0) /\
+         (forall m x, is_fin m = true -> In (m, x) (c_dir c) -> key_leb (key m) (t, i) = true) /\
+         (forall a, In a A -> key_leb a (t, i) = true)
+     end).
+Proof. exact snapshot_visible_lemma. Qed.
+Print Assumptions snapshot_visible_iff_complete.
+
+(* [FULL] retention. For every directory state and every order in which the listing returned the names, after cleanupSnapshots no temporary snapshot file is left and a snapshot is left iff it is not among the (number of snapshots minus snapRetention) oldest, snapRetention being the constant regenerated from the source *)
+Theorem snapshot_retention :
+  forall s oracle,
+    let d := dir s in
+    let s' := run (cleanup_muts d oracle) s in
+    (forall m x, is_tmp m = true -> ~ In (m, x) (dir s')) /\
+    (forall m x, is_tmp m = false ->
+       (In (m, x) (dir s') <-> In (m, x) d /\ ~ In m (firstn (length (finals d) - R) (finals d)))).
+Proof. exact snapshot_retention_lemma. Qed.
+Print Assumptions snapshot_retention.
